@@ -1,5 +1,8 @@
 """C01 — process models conserve total and per-component mass on a regular time grid."""
-from .. import core
+import json
+import os
+
+from .. import core, tlc
 from . import _process_common as pc
 
 ASSUMPTIONS = [
@@ -41,8 +44,32 @@ def run(ctx, pool):
     stats["nontrivial"] |= stc["nontrivial"]
     for k, v in stc["outcomes"].items():
         stats["outcomes"]["coarse_" + k] = v
+    # leg C: every run shape of the specification's model-checking instance gets (at least) one RETURNED run of the real models
+    shape_file = os.path.join(ctx.work, "shapes.ndjson")
+    r = tlc.run("MC_ProcessQ.tla", "MC_ProcessQ.cfg", workers=4, env={"SHAPE_FILE": shape_file}, workdir=ctx.work)
+    if not r.ok:
+        raise core.MachineryFailure("MC_ProcessQ (shape export) failed: %s %s" % (r.violated_names(), r.errors[:2]))
+    shapes = [json.loads(x) for x in open(shape_file) if x.strip()]
+    sjobs = [(ctx.seed * 31337 + j, shapes[j::12]) for j in range(12)]
+    for traces in core.parallel("harness.rec_process", "shape_job", sjobs):
+        tw.traces.extend(traces)
     res = core.validate_traces(None, ctx, tw, pool, "Trace_Process.tla", "Trace_Process_C01.cfg")
     res = pc.finish(res, tw, stats, CLAUSES, pc.RULE)
+    covered = set()
+    for tr in tw.traces:
+        if tr[-1].get("ev") == "End" and tr[-1].get("outcome") == "return":
+            st = tr[0]
+            nclass = 1 if st["N"] == 1 else (2 if st["N"] == 2 else 4)          # the instance's N = 4 stands for "more than two steps"
+            covered.add((nclass, st["iso"], st["ideal"], st["hasTperm"], st["hasProg"]))
+    want = {(q["N"], q["iso"], q["ideal"], q["hasTperm"], q["hasProg"]) for q in shapes}
+    res["coverage"]["spec_run_shapes"] = len(want)
+    res["coverage"]["spec_run_shapes_covered"] = len(want & covered)
+    res.setdefault("failures", [])
+    if len(want) != 36:
+        res["failures"].append("expected 36 run shapes from TLC, got %d" % len(want))
+    res["coverage"]["spec_run_shapes_uncovered"] = [list(q) for q in sorted(want - covered)]
+    if len(want & covered) < 33:          # a few unlucky shapes (every attempt raised) are reported above; many mean the sweep is broken
+        res["failures"].append("run shapes of the specification without a returned run of the real code: %s" % sorted(want - covered)[:4])
     return res
 
 
